@@ -664,6 +664,8 @@ class P(Prop):
     def exhaustive_scopes(self, tier):
         s = ["all edge lists (ordered) of length 0..2 on 1..3 nodes, weights {0,1,2}, orientations {-1,0,1} (8067 graphs), one random lattice geometry each, all ordered pairs by shortest_path on one Network object",
              "the same 8067 graphs: a sequence of shortest_path calls on one object in which EVERY ordered pair of queries (s1,t1),(s2,t2) is consecutive (82 calls for 3 nodes)"]
+        s.append("the same graphs with at least one edge: every ordered pair, then the weight of one edge is assigned another value of {0,1,2} on the built network, every ordered pair again (%s)"
+                 % ("every edge and every other value: 32004 sessions" if tier == "thorough" else "one random edge and value per graph: 8064 sessions"))
         if tier == "thorough":
             s.append("all multisets of 3 edges on 1..3 nodes over the same alphabet (100482 multigraphs), edge / node insertion order shuffled, one random geometry each")
         return s
@@ -705,6 +707,15 @@ class P(Prop):
                     out.append(self.with_geometry(rng, {"kind": "ex", "n": n, "order": order, "e": list(e)}))
                     if True:
                         out.append(self.with_geometry(rng, {"kind": "ex-seq", "seq": "euler", "n": n, "order": order, "e": list(e)}))
+                    # the same graph, every ordered pair, then ONE edge gets another weight on the built network, every pair again
+                    al = nc.alphabet(n)
+                    variants = [(j, w) for j in range(k) for w in (0, 1, 2) if w != al[e[j]][2]]
+                    if tier == "quick" and variants:
+                        variants = [rng.choice(variants)]
+                    for (j, w) in variants:
+                        pairs = [["P", str(s_), str(t_), "none", 0] for s_ in range(n) for t_ in range(n)]
+                        out.append(self.with_geometry(rng, {"kind": "ex-mut", "mut": 1, "n": n, "order": order, "e": list(e),
+                                                            "ops": pairs + [["W", j, w, rng.choice([0, 1, 2])]] + pairs}))
         if tier == "thorough":
             for n in (1, 2, 3):
                 for e in nc.enum_graphs(n, 3, ordered=False):
@@ -1323,13 +1334,14 @@ class P(Prop):
                 return "step %s->%s of path %s: edge %d (source %d, target %d, orientation %d) cannot be traversed in that direction" % (a, b, path, eid, es, et, o), None
             total += nc.num(w)
             options.append(opts)
-        if case.get("mut"):
-            if not all(view.joined(eid) for eid in used):
-                return None, total  # some polyline on the way does not join the positions of its ends (now): no chain to speak of
-        elif case.get("loose") or case.get("recoord"):
-            return None, total      # the polylines do not join the node positions / a node was given several positions: no chain to
-                                    # speak of (the geometry is compared with the model only)
         got = [[Fraction(px), Fraction(py)] for px, py in x["xy"]]
+        if (not all(view.joined(eid) for eid in used)) if case.get("mut") else (case.get("loose") or case.get("recoord")):
+            # some polyline on the way does not join the positions of its ends (at that moment) / a node was given several
+            # positions: no chain to speak of (the geometry is compared with the model only) — but the path still ends at the
+            # target's position
+            if not got or got[-1] != list(pos[t]):
+                return "geometry %s does not end at the target's position %s" % (x["xy"], pos[t]), None
+            return None, total
         ok = False
         for choice in itertools.islice(itertools.product(*options), 64):
             want = [list(pos[s])]
@@ -1469,6 +1481,16 @@ class P(Prop):
             for k, o in enumerate(ops):
                 simp = [o[0]] + [a.lstrip("of") if isinstance(a, str) and a[:1] in "of" else a for a in o[1:]]
                 if o[0] in MUTATIONS:
+                    # the plainest form of the modification: through getEdge / a new object, a two-vertex polyline
+                    plain = list(o)
+                    if o[0] in "WG" and o[3]:
+                        plain[3] = 0
+                    if o[0] == "C" and o[4]:
+                        plain[4] = 0
+                    if o[0] in "GE" and len(o[2]) > 2:
+                        plain[2] = [o[2][0], o[2][-1]]
+                    if plain != o:
+                        yield dict(case, ops=ops[:k] + [plain] + ops[k + 1:])
                     continue
                 if o[0] != "B" and simp[4]:
                     simp[4] = 0
